@@ -643,7 +643,7 @@ def load_safety_factors(case, ctx):
     for k, (g, scaled) in results.items():
         got = np.asarray(scaled, dtype=float).reshape(-1)
         wantv = np.asarray(vals, dtype=float) * g
-        if got.shape != wantv.shape or not np.allclose(got, wantv, rtol=1e-12, atol=0.0):
+        if got.shape != wantv.shape or not np.allclose(got, wantv, rtol=1e-12, atol=0.0, equal_nan=True):
             raise Violation("%s.scaled_load_sequence != gamma_L * load: %r vs %r" % (k, got.tolist(), wantv.tolist()), bucket="gamma:scaled:" + k)
         if list(scaled.index) != list(load.index):
             raise Violation("%s.scaled_load_sequence changed the index" % k, bucket="gamma:index")
